@@ -116,7 +116,7 @@ META = {
               "(callback results are inputs of each step): a request for a service other than ssh-connection, or for "
               "a username other than the pinned one, is answered with DISCONNECT only - no callback, transport "
               "closed, never authenticated afterwards (wrong_service_disconnects, username_change_disconnects, "
-              "refused_forever); all credential callbacks of a connection are asked about one username "
+              "refused_forever; refusal_in_every_dispatch_state for any expected-packet / GSS sub-handler state); all credential callbacks of a connection are asked about one username "
               "(single_username); only non-partial failures move the counter; the step that counts the tenth failure "
               "sends DISCONNECT and leaves the transport inactive; at most ten failures are ever answered; an inactive "
               "transport evaluates nothing (inactive_run). The model (server dispatch loop, _ensure_authed, all of "
@@ -126,8 +126,8 @@ META = {
     "note": ("Trusted: Lean kernel + 3 standard axioms; the harness (raw client, callback log, gates); key parsing and "
              "signature verification enter as inputs (real key classes); UTF-8 validity is modelled (Python strict "
              "decoder) and checked by correspondence. Kex-layer message types (7, 20, 21) and connection-layer "
-             "handling after authentication are delegated (assumed not to touch authentication state). The "
-             "pinning/service theorems are stated for the normal handler (no GSS sub-handler installed, no expected "
-             "packet pending); the history theorems hold from every state."),
+             "handling after authentication are delegated (assumed not to touch authentication state). The two "
+             "byte-exact pinning/service theorems are stated for the normal handler; refusal_in_every_dispatch_state and "
+             "the history theorems hold from every state."),
     "technique": "Lean 4 proof (invariants by induction over message histories of a decide/perform state machine) + differential correspondence",
 }
